@@ -128,3 +128,54 @@ MUTANTS = [
     M("vanish-node-interface", IFACE,
       "class IFilesystemNode(Interface):", "class IFilesystemNodeBase(Interface):", "ANALYSIS-ERROR"),
 ]
+
+# ---- C43.6 (seeded C43-E): comparison methods written by a class decorator / a class-body assignment
+_UNK_OLD = "class UnknownURI(_BaseURI):\n    def __init__(self, uri, error=None):\n        self._uri = uri\n        self._error = error\n"
+_IMP_OLD = "from zope.interface import implementer\nfrom twisted.python.components import registerAdapter\n"
+_IMP_ATTR = "import attr\n" + _IMP_OLD
+_IMP_ATTRS = "import attrs\n" + _IMP_OLD
+_IMP_DC = "from dataclasses import dataclass, field\n" + _IMP_OLD
+
+
+def _U(name, new_class, imp, expect):
+    return M(name, URI, _UNK_OLD, new_class, expect, edits=[(URI, _IMP_OLD, imp)] if imp else [])
+
+
+MUTANTS += [
+    # the seeded mechanism: frozen attrs class, generated __eq__/__ne__/__hash__ over (uri, error)
+    _U("unknown-uri-frozen-attrs", "@attr.s(frozen=True)\nclass UnknownURI(_BaseURI):\n    _uri = attr.ib()\n    _error = attr.ib(default=None)\n",
+       _IMP_ATTR, "C43.6"),
+    # the same effect through the standard library
+    _U("unknown-uri-frozen-dataclass", "@dataclass(frozen=True)\nclass UnknownURI(_BaseURI):\n    _uri: bytes\n    _error: object = None\n",
+       _IMP_DC, "C43.6"),
+    # .. and through the modern attrs API (annotated fields)
+    _U("unknown-uri-attrs-frozen-api", "@attrs.frozen\nclass UnknownURI(_BaseURI):\n    _uri: bytes\n    _error: object = None\n",
+       _IMP_ATTRS, "C43.6"),
+    # only the cap string is compared, but the class is not frozen: attrs sets __hash__ = None
+    _U("unknown-uri-attrs-unhashable", "@attr.s\nclass UnknownURI(_BaseURI):\n    _uri = attr.ib()\n    _error = attr.ib(default=None, eq=False)\n",
+       _IMP_ATTR, "C43.6"),
+    # not frozen and no hash requested: dataclass sets __hash__ = None as well
+    _U("unknown-uri-dataclass-unhashable", "@dataclass\nclass UnknownURI(_BaseURI):\n    _uri: bytes\n    _error: object = field(default=None, compare=False)\n",
+       _IMP_DC, "C43.6"),
+    # a class-body assignment hides the inherited def
+    M("unknown-uri-hash-unset", URI, _UNK_OLD, "class UnknownURI(_BaseURI):\n    __hash__ = None\n\n    def __init__(self, uri, error=None):\n        self._uri = uri\n        self._error = error\n", "C43.6"),
+    M("unknown-uri-eq-rebound-to-identity", URI, _UNK_OLD,
+      "class UnknownURI(_BaseURI):\n    __eq__ = object.__eq__\n    __ne__ = object.__ne__\n    __hash__ = object.__hash__\n\n    def __init__(self, uri, error=None):\n        self._uri = uri\n        self._error = error\n", "C43.6"),
+    # a decorator the rule does not know
+    M("vanish-unknown-class-decorator", URI, _UNK_OLD, "def _tag(cls):\n    return cls\n\n@_tag\n" + _UNK_OLD, "ANALYSIS-ERROR"),
+    # behaviour-preserving conversions
+    _U("benign-unknown-uri-attrs-eq-false", "@attr.s(frozen=True, eq=False)\nclass UnknownURI(_BaseURI):\n    _uri = attr.ib()\n    _error = attr.ib(default=None)\n",
+       _IMP_ATTR, None),
+    _U("benign-unknown-uri-attrs-error-not-compared", "@attr.s(frozen=True)\nclass UnknownURI(_BaseURI):\n    _uri = attr.ib()\n    _error = attr.ib(default=None, eq=False)\n",
+       _IMP_ATTR, None),
+    _U("benign-unknown-uri-dataclass-error-not-compared", "@dataclass(frozen=True)\nclass UnknownURI(_BaseURI):\n    _uri: bytes\n    _error: object = field(default=None, compare=False)\n",
+       _IMP_DC, None),
+    _U("benign-unknown-uri-dataclass-eq-false", "@dataclass(frozen=True, eq=False)\nclass UnknownURI(_BaseURI):\n    _uri: bytes\n    _error: object = None\n",
+       _IMP_DC, None),
+    _U("benign-unknown-uri-define-own-trio", "@attrs.define\nclass UnknownURI(_BaseURI):\n    _uri: bytes\n    _error: object = None\n\n"
+       "    def __eq__(self, them):\n        if isinstance(them, _BaseURI):\n            return self.to_string() == them.to_string()\n        return False\n\n"
+       "    def __ne__(self, them):\n        return not self == them\n\n"
+       "    def __hash__(self):\n        return hash(self.to_string())\n", _IMP_ATTRS, None),
+    M("benign-unknown-uri-hash-reexported", URI, _UNK_OLD,
+      "class UnknownURI(_BaseURI):\n    __hash__ = _BaseURI.__hash__\n\n    def __init__(self, uri, error=None):\n        self._uri = uri\n        self._error = error\n", None),
+]
